@@ -62,13 +62,13 @@ import (
 // ---- addresses -----------------------------------------------------------------------------
 
 type c15Addr struct {
-	ID    int    `json:"id"`
-	Str   string `json:"addr"`
-	Zone  bool   `json:"-"`
-	Kind  string `json:"-"` // ip4 ip6 dns other
+	ID    int      `json:"id"`
+	Str   string   `json:"addr"`
+	Zone  bool     `json:"-"`
+	Kind  string   `json:"-"` // ip4 ip6 dns other
 	IP    *big.Int `json:"-"`
-	Name  string `json:"-"`
-	Relay bool   `json:"-"`
+	Name  string   `json:"-"`
+	Relay bool     `json:"-"`
 	m     ma.Multiaddr
 }
 
@@ -127,13 +127,14 @@ func c15Build(kind string, ip *big.Int, name string, zone, relay bool, variant i
 		proto := []string{"dns4", "dns", "dns6", "dnsaddr"}[variant%4]
 		m, err = ma.NewMultiaddr("/" + proto + "/" + name)
 	default:
+		// a first component that is neither an IP nor a DNS name (no path protocols: they swallow the rest)
 		switch variant % 3 {
 		case 0:
-			m, err = ma.NewMultiaddr("/p2p/" + c15RelayID.String())
+			m, err = ma.NewMultiaddr("/tcp/4001")
 		case 1:
-			m, err = ma.NewMultiaddr("/unix/c15")
-		default:
 			m, err = ma.NewMultiaddr("/memory/4321")
+		default:
+			m, err = ma.NewMultiaddr("/udp/4001/quic-v1")
 		}
 	}
 	if err != nil {
@@ -159,6 +160,31 @@ func c15Build(kind string, ip *big.Int, name string, zone, relay bool, variant i
 	}
 	a.m = m
 	a.Str = m.String()
+	// the structure handed to the model is read back from the components of the address that was
+	// built (protocol codes only; none of the classification functions under test is used)
+	a.Zone, a.Relay, a.Kind, a.IP, a.Name = false, false, "other", nil, ""
+	first := true
+	ma.ForEach(m, func(c ma.Component) bool {
+		code := c.Protocol().Code
+		if code == ma.P_CIRCUIT {
+			a.Relay = true
+		}
+		if first {
+			switch code {
+			case ma.P_IP6ZONE:
+				a.Zone = true
+				return true // the next component is the head
+			case ma.P_IP4:
+				a.Kind, a.IP = "ip4", new(big.Int).SetBytes(c.RawValue())
+			case ma.P_IP6:
+				a.Kind, a.IP = "ip6", new(big.Int).SetBytes(c.RawValue())
+			case ma.P_DNS, ma.P_DNS4, ma.P_DNS6, ma.P_DNSADDR:
+				a.Kind, a.Name = "dns", c.Value()
+			}
+			first = false
+		}
+		return true
+	})
 	return a, true
 }
 
@@ -390,10 +416,10 @@ func (h *c15Host) Addrs() []ma.Multiaddr {
 	defer h.mu.Unlock()
 	return append([]ma.Multiaddr(nil), h.addrs...)
 }
-func (h *c15Host) Network() network.Network                         { return h.net }
-func (h *c15Host) ConnManager() connmgr.ConnManager                 { return connmgr.NullConnMgr{} }
-func (h *c15Host) EventBus() event.Bus                              { return h.bus }
-func (h *c15Host) Connect(context.Context, peer.AddrInfo) error     { return nil }
+func (h *c15Host) Network() network.Network                            { return h.net }
+func (h *c15Host) ConnManager() connmgr.ConnManager                    { return connmgr.NullConnMgr{} }
+func (h *c15Host) EventBus() event.Bus                                 { return h.bus }
+func (h *c15Host) Connect(context.Context, peer.AddrInfo) error        { return nil }
 func (h *c15Host) SetStreamHandler(protocol.ID, network.StreamHandler) {}
 func (h *c15Host) SetStreamHandlerMatch(protocol.ID, func(protocol.ID) bool, network.StreamHandler) {
 }
@@ -419,6 +445,7 @@ type c15Sender struct {
 	replies map[peer.ID]c15Reply
 	calls   []c15Call
 	gate    chan struct{} // when non-nil: GET_PROVIDERS requests wait for it
+	valGate chan struct{} // when non-nil: GET_VALUE requests wait for it
 }
 
 func (s *c15Sender) log(c c15Call) {
@@ -431,8 +458,13 @@ func (s *c15Sender) SendRequest(ctx context.Context, p peer.ID, m *pb.Message) (
 	s.mu.Lock()
 	rep := s.replies[p]
 	gate := s.gate
+	if m.GetType() == pb.Message_GET_VALUE {
+		gate = s.valGate
+	} else if m.GetType() != pb.Message_GET_PROVIDERS {
+		gate = nil
+	}
 	s.mu.Unlock()
-	if gate != nil && m.GetType() == pb.Message_GET_PROVIDERS {
+	if gate != nil {
 		select {
 		case <-gate:
 		case <-ctx.Done():
@@ -581,7 +613,7 @@ func c15ErrCoq(err error) string { // an inner result's error as a model value
 func c15NatList(xs []int) string {
 	it := make([]string, len(xs))
 	for i, x := range xs {
-		it[i] = fmt.Sprint(x)
+		it[i] = fmt.Sprintf("%d%%nat", x)
 	}
 	return vfList(it)
 }
@@ -589,7 +621,7 @@ func c15OptNat(x int) string {
 	if x < 0 {
 		return "None"
 	}
-	return fmt.Sprintf("(Some %d)", x)
+	return fmt.Sprintf("(Some %d%%nat)", x)
 }
 
 // ---- case kinds --------------------------------------------------------------------------------------
@@ -712,8 +744,17 @@ func c15CaseLookup(r *vfRand, bnd []c15Cand) c15Case {
 		refs[i].p = c15PeerID(r)
 		refs[i].resp = pool.list(r.Intn(4))
 		if r.Chance(35) {
-			refs[i].known = pool.list(1 + r.Intn(2))
-			n.h.ps.AddAddrs(refs[i].p, c15Maddrs(refs[i].known), time.Hour)
+			cand := pool.list(1 + r.Intn(2))
+			n.h.ps.AddAddrs(refs[i].p, c15Maddrs(cand), time.Hour)
+			have := map[string]bool{}
+			for _, m := range n.h.ps.Addrs(refs[i].p) {
+				have[string(m.Bytes())] = true
+			}
+			for _, a := range cand { // what the peerstore really holds
+				if have[string(a.m.Bytes())] {
+					refs[i].known = append(refs[i].known, a)
+				}
+			}
 		}
 		closer = append(closer, peer.AddrInfo{ID: refs[i].p, Addrs: c15Maddrs(refs[i].resp)})
 	}
@@ -883,13 +924,18 @@ func c15CaseGet(r *vfRand, combo int) c15Case {
 	}
 	if (combo>>3)&1 == 1 {
 		lv = r.Intn(2)
+		if wv >= 0 && r.Chance(70) {
+			lv = 1 - wv // different values: the priority becomes visible
+		}
 		sc.lanReply.value = vals[lv]
 	}
+	// arrival order of the two inner results in the dual call: 0 unforced, 1 LAN first, 2 WAN first
+	order := r.Intn(3)
 	key := "/v/c15get"
 	if r.Chance(8) {
 		key = "/unknownns/c15get" // both inner DHTs fail with a validation error that is no sentinel
 	}
-	run := func(f func(n *c15Node, ctx context.Context) ([]byte, error)) (int, error, *c15Node, error) {
+	run := func(f func(n *c15Node, ctx context.Context) ([]byte, error), ord int) (int, error, *c15Node, error) {
 		n, err := c15NewNode(r)
 		if err != nil {
 			return 0, nil, nil, err
@@ -900,28 +946,48 @@ func c15CaseGet(r *vfRand, combo int) c15Case {
 		}
 		ctx, cancel := context.WithTimeout(context.Background(), c15Timeout)
 		defer cancel()
+		if ord != 0 {
+			// hold one side's GET_VALUE replies back until the other side has answered all its seeds
+			// (plus a grace period for its GetValue to return)
+			firstS, secondS, firstSeeds := n.lan, n.wan, len(sc.lanSeeds)
+			if ord == 2 {
+				firstS, secondS, firstSeeds = n.wan, n.lan, len(sc.wanSeeds)
+			}
+			g := make(chan struct{})
+			secondS.valGate = g
+			go func() {
+				defer close(g)
+				for ctx.Err() == nil {
+					if len(firstS.snapshot()) >= firstSeeds {
+						time.Sleep(30 * time.Millisecond)
+						return
+					}
+					time.Sleep(time.Millisecond)
+				}
+			}()
+		}
 		v, e := f(n, ctx)
 		return valID(v), e, n, nil
 	}
-	wVal, wErr, n1, err := run(func(n *c15Node, ctx context.Context) ([]byte, error) { return n.d.WAN.GetValue(ctx, key) })
+	wVal, wErr, n1, err := run(func(n *c15Node, ctx context.Context) ([]byte, error) { return n.d.WAN.GetValue(ctx, key) }, 0)
 	if err != nil {
 		return c15Case{fail: err.Error()}
 	}
 	n1.close()
-	lVal, lErr, n2, err := run(func(n *c15Node, ctx context.Context) ([]byte, error) { return n.d.LAN.GetValue(ctx, key) })
+	lVal, lErr, n2, err := run(func(n *c15Node, ctx context.Context) ([]byte, error) { return n.d.LAN.GetValue(ctx, key) }, 0)
 	if err != nil {
 		return c15Case{fail: err.Error()}
 	}
 	n2.close()
-	dVal, dErr, n3, err := run(func(n *c15Node, ctx context.Context) ([]byte, error) { return n.d.GetValue(ctx, key) })
+	dVal, dErr, n3, err := run(func(n *c15Node, ctx context.Context) ([]byte, error) { return n.d.GetValue(ctx, key) }, order)
 	if err != nil {
 		return c15Case{fail: err.Error()}
 	}
 	n3.close()
 	term := fmt.Sprintf("CGet (%s, %s) (%s, %s) %s %s", c15OptNat(wVal), c15ErrCoq(wErr), c15OptNat(lVal), c15ErrCoq(lErr),
 		c15OptNat(dVal), c15NatList(c15Sentinels(dErr)))
-	return c15Case{coq: term, sig: fmt.Sprintf("get|w=%d/%v|l=%d/%v", wVal, c15Sentinels(wErr), lVal, c15Sentinels(lErr)),
-		desc: map[string]any{"kind": "get", "wan_seeds": len(sc.wanSeeds), "lan_seeds": len(sc.lanSeeds), "wan_has": wv, "lan_has": lv, "key": key,
+	return c15Case{coq: term, sig: fmt.Sprintf("get|w=%d/%v|l=%d/%v|o=%d", wVal, c15Sentinels(wErr), lVal, c15Sentinels(lErr), order),
+		desc: map[string]any{"kind": "get", "order": order, "wan_seeds": len(sc.wanSeeds), "lan_seeds": len(sc.lanSeeds), "wan_has": wv, "lan_has": lv, "key": key,
 			"wan": []any{wVal, c15Sentinels(wErr)}, "lan": []any{lVal, c15Sentinels(lErr)}, "dual": []any{dVal, c15Sentinels(dErr)}}}
 }
 
@@ -1158,12 +1224,20 @@ func TestVerifC15(t *testing.T) {
 					c = c15CaseLookup(r, bnd)
 				case 5:
 					c = c15CaseWrite(r, bnd, (j/10)%8)
-				case 6:
-					c = c15CaseGet(r, (j/10)%16)
-				case 7:
-					c = c15CaseFindPeer(r, bnd, (j/10)%16)
-				default:
-					c = c15CaseProv(r, bnd, (j/10)%4)
+				case 6, 7, 8, 9:
+					// all 16 combinations in turn; every other round both tables are forced non-empty
+					combo := (j / 10) % 16
+					if (j/160)%2 == 1 {
+						combo |= 3
+					}
+					switch j % 10 {
+					case 6:
+						c = c15CaseGet(r, combo)
+					case 7:
+						c = c15CaseFindPeer(r, bnd, combo)
+					default:
+						c = c15CaseProv(r, bnd, []int{3, 1, 3, 2, 3, 0}[(j/10)%6])
+					}
 				}
 			}
 		}()
